@@ -81,11 +81,19 @@ def skeleton_hash():
                 if isinstance(n, (ast.FunctionDef, ast.AsyncFunctionDef)):
                     n.body = [ast.Pass()]
             h.update((os.path.join(dp, f) + ast.dump(tree)).encode())
+    # what the VCs read from function bodies other than the function's own: the shapes of generated names
+    try:
+        from fin.name_lemmas import shapes
+        h.update(repr(sorted(shapes().items())).encode())
+    except Exception:
+        h.update(b'shapes-unreadable')
     for d in ('pyvc', 'contracts'):
         for f in sorted(os.listdir(os.path.join(HERE, d))):
             if f.endswith('.py'):
                 with open(os.path.join(HERE, d, f), 'rb') as fh:
                     h.update(fh.read())
+    with open(os.path.join(HERE, 'fin', 'name_lemmas.py'), 'rb') as fh:
+        h.update(fh.read())
     _skeleton = h.hexdigest()
     return _skeleton
 
